@@ -11,7 +11,7 @@ RULE = ('Exhaustive grid: operator in {+ - * / % == != < <= > >= and or, unary +
         'including positive literals beyond the signed range} x operand type combination {int*int, byte*byte, byte*int, int*byte, bool*bool} x all '
         'ordered pairs from a per-word-size boundary grid (0, +-1, 2, 127/128, 255/256/257, -128/-129, -255/-256, MIN, '
         'MIN+1, MAX, MAX-1 + seeded random values; bytes 0,1,2,127,128,254,255 + random) x usage position {value, recast '
-        'to int, if-branch, while-condition, !truth_is_defeat under try/stop, narrowed to byte and consumed as the index of a byte-array store, narrowed and consumed as a dynamic array length} x word size {2,3,4}. Operands are run-time '
+        'to int, if-branch, while-condition, !truth_is_defeat under try/stop, the truth value stored in a bool inside a try body and deciding a later defeat, narrowed to byte and consumed as the index of a byte-array store, narrowed and consumed as a dynamic array length} x word size {2,3,4}. Operands are run-time '
         'values (elements of mutable global arrays, never folded) held in local variables and, for the unary and binary groups in the value / branch / defeat positions, also in non-const globals, used directly as array elements, and as parameters. Oracle: harness arithmetic (two\'s complement wrap, '
         'signed compare, zero extension, low-byte truncation, truthiness, strict 0/1 booleans, floored / and %); the '
         'positions must also agree with one another. Division by zero pairs are excluded (C05). Non-trivial: pairs with '
@@ -24,7 +24,7 @@ EXTRA = [6]
 BIN_ARITH = ['+', '-', '*', '/', '%']
 BIN_CMP = ['==', '!=', '<', '<=', '>', '>=']
 BIN_LOGIC = ['and', 'or']
-POSITIONS = ['value', 'recast', 'if', 'while', 'defeat', 'index', 'length']
+POSITIONS = ['value', 'recast', 'if', 'while', 'defeat', 'defeat_value', 'index', 'length']
 SCRATCH = 'byte[] T = [%s];\n' % ', '.join(['0'] * 256)
 
 
@@ -126,6 +126,9 @@ def body_for(position, expr, rty):
         return 'int n = 0; while (%s) { n += 1; if (n >= 1) { break; } } write(n); write(\';\');' % expr
     if position == 'defeat':
         return 'try { !truth_is_defeat(%s); write(\'N\'); } stop { write(\'D\'); } write(\';\');' % as_bool
+    if position == 'defeat_value':
+        # the truth value is materialised as a bool *value* inside the try body and only then decides a later defeat
+        return ('try { bool q = %s; write(\'v\'); !truth_is_defeat(q == true); write(\'N\'); } stop { write(\'D\'); } write(\';\');' % as_bool)
     as_byte = expr if rty == 'byte' else '(%s) is byte' % expr
     if position == 'index':
         # the narrowed result consumed as the index of a byte-array store (checked against the length, then used as offset)
@@ -154,6 +157,8 @@ def expect_for(position, res):
         return '1' if truth else '0'
     if position == 'defeat':
         return 'D' if truth else 'N'
+    if position == 'defeat_value':
+        return 'vD' if truth else 'vN'
     if position in ('index', 'length'):
         return str(int(v) & 0xFF)
 
@@ -382,12 +387,14 @@ def run_shard(desc, seed, tier):
         for position in POSITIONS:
             if kind == 'arithcmp' and position not in ('value', 'if', 'defeat'):
                 continue
+            if position == 'defeat_value' and kind in ('litright', 'litleft'):
+                continue
             if position in ('index', 'length') and (kind == 'notbin' or op in BIN_CMP or op in BIN_LOGIC or op in ('not', 'is bool')):
                 continue        # bool results narrow to 0/1 only: the index/length positions are about int and byte results
             v = check_group(stats, ws, kind, op, ta, tb, position, seed)
             if v:
                 stats.violation(v)
-            if kind in ('unary', 'binary') and position in ('value', 'if', 'defeat'):
+            if kind in ('unary', 'binary') and position in ('value', 'if', 'defeat', 'defeat_value'):
                 for form in ('global', 'elem', 'param'):
                     v = check_group(stats, ws, kind, op, ta, tb, position, seed, form)
                     if v:
